@@ -58,7 +58,10 @@ for sid in ids:
         repo = f"/tmp/seedrun-{os.path.basename(V)}-{sid}"  # one scratch worktree per seeded change
         subprocess.call(["git", "-C", "/repo", "worktree", "remove", "--force", repo], stderr=subprocess.DEVNULL)
         subprocess.check_call(["git", "-C", "/repo", "worktree", "add", "-q", "--detach", repo, "HEAD"])
-        subprocess.check_call(["git", "-C", repo, "apply", patch])
+        if subprocess.call(["git", "-C", repo, "apply", patch]) != 0:
+            print(sid, "PATCH DOES NOT APPLY to /repo HEAD any more (rebase it)")
+            subprocess.call(["git", "-C", "/repo", "worktree", "remove", "--force", repo])
+            continue
     try:
         for pid in props:
             env = dict(os.environ, VERIF_REPO=repo, VERIF_EVIDENCE_DIR=os.path.join(V, "build", "seeded-evidence", sid),
